@@ -20,5 +20,10 @@ Proof.
   constructor; [|constructor; [|constructor]]; unfold small; apply N.ltb_lt; vm_compute; reflexivity.
 Qed.
 
+Lemma ex_nozero : g_nodes ex_db = [] /\ ~ In zero_hash (map fst (g_accts ex_db)).
+Proof.
+  split; [reflexivity|]. unfold ex_db. cbn [g_accts map fst]. intros [E|[E|[]]]; vm_compute in E; discriminate.
+Qed.
+
 Lemma ex_check_true : ex_check = true.
 Proof. vm_compute. reflexivity. Qed.
